@@ -23,7 +23,7 @@ func relOf(f fact) (string, bool) {
 		}
 		// boolean value itself, or negation
 		if u, ok := f.Cond.(*ssa.UnOp); ok && u.Op == token.NOT {
-			return relOf(fact{u.X, !f.Val})
+			return relOf(fact{Cond: u.X, Val: !f.Val})
 		}
 		if f.Val {
 			return sk(f.Cond) + " == true", true
